@@ -6,6 +6,9 @@ use crate::macsuites::*;
 use crate::util::*;
 
 pub fn eval(op: &str) -> String {
+    if op.split_whitespace().nth(1) == Some("nbdev") {
+        return crate::adevgen::eval_nb(op, crate::adevgen::oracle_c10_nb);
+    }
     if op.split_whitespace().nth(1) == Some("adev") {
         return crate::adevgen::eval(op, crate::adevgen::oracle_c10_dev);
     }
@@ -84,6 +87,10 @@ pub fn run(tier: &str, seed: u64, dir: &str) {
                 let op = h.done();
                 sink.case(&op, &eval(&op), "device-timing", true);
             }
+        }
+        for _ in 0..(if thorough { 300 } else { 25 }) {
+            let op = crate::adevgen::gen_nb_random_history("C10", region, &mut rng);
+            sink.case(&op, &eval(&op), "nb-timing", true);
         }
         for i in 0..(if thorough { 300 } else { 20 }) {
             let op = crate::adevgen::gen_join_history("C10", region, &mut rng, i % 2 == 0);
